@@ -31,6 +31,10 @@ def run(ctx):
     check_lines(ctx, prog)
     check_headers(ctx, prog)
     check_parse_query(ctx, prog)
+    # bodies are read with the blocking Socket_::read(p, n): a retry after a short transfer asks for the remainder only
+    import C16
+    C16.PROG = prog
+    C16.check_partial(ctx, prog, rule='C09.partial', files=False)
     import nullret
     nullret.check(ctx, prog, 'C09', ('Http.cpp', 'HttpServer.cpp'))
     import litread
@@ -152,6 +156,27 @@ def check_dotdot(ctx, prog):
         ok = not others and any(w.get('k') == 'var' and w.get('id') in pathvars for w in walk_expr(local['init']))
     ctx.check(ok, 'C09.dotdot', sf['pq'], 'serveFile:local file name = root + request.path()', fwhere(sf), 'only the sanitised path is appended to the root',
               'the file server builds the local file name from something other than the web root and request.path()')
+    # ... and nothing in serveFile decodes the path again: a second percent-decoding turns %252e%252e into ".." after the strip
+    def decodes(name, seen=None):
+        seen = seen if seen is not None else set()
+        if name in seen:
+            return False
+        seen.add(name)
+        if name == 'asl::Url::decode':
+            return True
+        for h in prog.fn(name):
+            if h.get('body') and (h.get('file') or '').startswith(ir.REPO):
+                if any(c.get('k') == 'call' and decodes(c.get('pq') or c.get('fn') or '', seen) for c in fn_exprs(h)):
+                    return True
+        return False
+    redec = []
+    for c in fn_exprs(sf):
+        if c.get('k') == 'call' and decodes(c.get('pq') or c.get('fn') or ''):
+            ops = list(c.get('a') or []) + ([c['obj']] if c.get('obj') is not None else [])
+            if any((w.get('k') == 'var' and w.get('id') in pathvars) or (w.get('k') == 'call' and w.get('pq') == 'asl::HttpRequest::path') for o in ops for w in walk_expr(o)):
+                redec.append(c)
+    ctx.check(not redec, 'C09.dotdot', sf['pq'], 'serveFile:the sanitised path is not decoded again', fwhere(sf, redec[0]['l'] if redec else None), 'no call in serveFile() that reaches Url::decode takes the path',
+              'serveFile() passes the path to `%s`, which percent-decodes it a second time after the ".." strip: /%%252e%%252e/ becomes /../' % (pe(redec[0])[:60] if redec else ''))
     # replace(): restart after the replaced occurrence
     rp = fn1(prog, 'asl::String::replace', '(const asl::String &,const asl::String &)const')
     ctx.analysed(rp)
